@@ -1,0 +1,23 @@
+//! Verification hooks (only compiled with `--cfg dnssector_verif`).
+//!
+//! A thread-local counter of the elementary steps spent by the validator:
+//! one per iteration of the two name-walking loops, one per record and one
+//! per EDNS option visited. It has no effect on the behaviour of the library.
+use std::cell::Cell;
+
+thread_local!(static STEPS: Cell<u64> = const { Cell::new(0) });
+
+/// Resets the step counter of the current thread.
+pub fn reset() {
+    STEPS.with(|s| s.set(0));
+}
+
+/// Returns the number of steps counted on the current thread since the last `reset()`.
+pub fn get() -> u64 {
+    STEPS.with(|s| s.get())
+}
+
+#[inline]
+pub(crate) fn tick() {
+    STEPS.with(|s| s.set(s.get().wrapping_add(1)));
+}
